@@ -1,44 +1,30 @@
 """Which units decide which property.  Everything else (contracts, harnesses) lives in /verif/units."""
+import os
+import re
 
-# verus unit -> witness search (native, on the real code)
+VERIF = "/verif"
+
+# verus unit -> native witness search on the real code (appended to `target` in a scratch copy)
 WITNESS = {
     "partition": {"target": "src/common/partition.rs", "src": "units/partition/witness.rs"},
     "toi": {"target": "src/sender/toiallocator.rs", "src": "units/toi/witness.rs"},
     "getext": {"target": "src/common/lct.rs", "src": "units/getext/witness.rs"},
     "ntp": {"target": "src/tools/mod.rs", "src": "units/ntp/witness.rs"},
+    "objrecv": {"target": "src/receiver/objectreceiver.rs", "src": "units/objrecv/witness.rs"},
+    "timing": {"target": "src/sender/filedesc.rs", "src": "units/timing/witness.rs"},
+    "ringbuffer": {"target": "src/tools/ringbuffer.rs", "src": "units/ringbuffer/witness.rs"},
+    "blockencoder": {"target": "src/sender/blockencoder.rs", "src": "units/blockencoder/witness.rs"},
+    "blockwriter": {"target": "src/receiver/blockwriter.rs", "src": "units/blockwriter/witness.rs"},
+    "decoders": {"target": "src/fec/nocode.rs", "src": "units/decoders/witness.rs"},
+    "receiver": {"target": "src/receiver/receiver.rs", "src": "units/receiver/witness.rs"},
+    "multireceiver": {"target": "src/receiver/multireceiver.rs", "src": "units/multireceiver/witness.rs"},
+    "fdtsched": {"target": "src/sender/fdt.rs", "src": "units/fdtsched/witness.rs"},
+    "sendsched": {"target": "src/sender/sendersession.rs", "src": "units/sendsched/witness.rs"},
+    "filedesc": {"target": "src/sender/filedesc.rs", "src": "units/filedesc/witness.rs"},
 }
+WITNESS = {k: v for k, v in WITNESS.items() if os.path.exists(os.path.join(VERIF, v["src"]))}
 
-PROPS = {
-    "C07": {
-        "level": "proof",
-        "verus": ["partition"],
-        "kani": [],
-        "structural": [],
-        "not_covered": [],
-        "design_ref": "DESIGN.md section 6, C07",
-        "technique": "Verus contracts on extracted partition functions against an RFC 5052 spec over nat (nonlinear-arithmetic lemmas)",
-        "claim": "block_partitioning == RFC 5052 section 9.1 for every u64 triple; block_length == per-block byte length for every "
-                 "L < 2^48, E <= 65535 and SBN < N, no intermediate overflow; proved unbounded by Verus on the extracted real text",
-        "note": "trusted: Verus/Z3, the extractor's rewrite list, num-integer div_ceil/div_floor contracts (one-line bodies transcribed)",
-    },
-}
-
-PROPS["C15"] = {
-    "level": "proof",
-    "verus": ["toi"],
-    "kani": [],
-    "structural": [],
-    "not_covered": ["decimal TOI string in the FDT XML (to_string of the same u128)", "termination of the allocation loop",
-                    "Send/Sync of Sender and Toi handles (rustc's auto-trait check, not a contract)"],
-    "design_ref": "DESIGN.md section 6, C15",
-    "technique": "Verus data-structure invariant (alloc_wf) on the extracted ToiAllocatorInternal with whole-view postconditions over HashSet<u128>",
-    "claim": "every allocate/release/new preserves the allocator invariant (next TOI non-zero, within the configured width, not reserved; "
-             "every reserved TOI non-zero and within width); allocate returns a fresh value and reserved' == reserved + {ret}; release removes exactly its TOI; "
-             "holds for every history by induction over the contracts, every width and every initial value incl. the random one",
-    "note": "trusted: Verus/Z3, vstd HashSet<u128> model, Mutex gives mutual exclusion (sequential invariant = lock invariant), RNG returns any u128; "
-            "termination of allocate unproved",
-}
-
+# Kani in place: harness files appended to a byte-identical copy of the defining source file
 KANI_WIRE = [
     {"target": "src/tools/error.rs", "src": "units/wire/kani_stubs.rs"},
     {"target": "src/common/lct.rs", "src": "units/wire/kani_lct.rs"},
@@ -49,32 +35,177 @@ KANI_WIRE = [
     {"target": "src/common/alccodec/alcrs2m.rs", "src": "units/wire/kani_alcrs2m.rs"},
     {"target": "src/common/alccodec/alcraptorq.rs", "src": "units/wire/kani_alcraptorq.rs"},
     {"target": "src/common/alccodec/alcraptor.rs", "src": "units/wire/kani_alcraptor.rs"},
+    {"target": "src/sender/block.rs", "src": "units/decoders/kani_block.rs"},
+    {"target": "src/fec/rscodec.rs", "src": "units/decoders/kani_rscodec.rs"},
+    {"target": "src/receiver/writer/objectwriterfs.rs", "src": "units/confine/kani_confine.rs"},
+    {"target": "src/common/oti.rs", "src": "units/wire/kani_oti.rs"},
+    {"target": "src/common/fdtinstance.rs", "src": "units/wire/kani_fdtinstance.rs"},
 ]
+KANI_WIRE = [g for g in KANI_WIRE if os.path.exists(os.path.join(VERIF, g["src"]))]
 
-PROPS["C06"] = {
-    "level": "proof",
-    "verus": ["getext", "ntp"],
-    "kani": KANI_WIRE,
-    "structural": [],
-    "not_covered": [],
-    "design_ref": "DESIGN.md section 6, C06",
-    "technique": "Kani/CBMC full-domain harnesses on the real codecs against RFC decoders written from the RFC text; Verus for the extension walk",
-    "claim": "wip",
-    "note": "wip",
+TRUST_COMMON = ("trusted: Verus 0.2026.09.13/Z3, Kani 0.68/CBMC, the extractor and its closed rewrite list R1-R13, the std/vstd contracts "
+                "listed one by one under `assumptions` in the evidence file; callee contracts proved in another unit are marked as such")
+
+
+def U(*names):
+    """verus units that exist on disk and are marked READY (units still under construction are not registered)"""
+    return [n for n in names if os.path.exists(os.path.join(VERIF, "units", n, "unit.vrs")) and os.path.exists(os.path.join(VERIF, "units", n, "READY"))]
+
+
+PROPS = {
+    "C01": {
+        "level": "proof", "verus": U("partition", "objrecv", "ringbuffer", "decoders", "blockwriter", "blockencoder", "filedesc"), "kani": KANI_WIRE, "structural": [],
+        "technique": "conjunction of component contracts: Verus (partition both ends, receiver pipeline, FIFO ring, decoders, writers) + Kani codec round trips",
+        "claim": "what contracts decide of the end-to-end statement: refusal of objects above the scheme's wire capacity at add time, the same RFC 5052 partition on "
+                 "both ends, header/FTI/payload-id round trips for every field value, first-copy-wins symbol placement and in-order trimmed write-out, "
+                 "a loss-free FIFO decompression ring, exactly one terminal writer call; each as a discharged obligation on the real code",
+        "not_covered": ["FEC encode/decode inverses of reed-solomon-erasure / raptorq / raptor-code", "flate2 round trip", "XML serialisation (quick-xml/serde)",
+                        "receive-once registry across transfers as a history property", "file contents written by ObjectWriterFS", "mixes of concurrent objects"],
+    },
+    "C02": {
+        "level": "proof", "verus": U("decoders", "blockencoder", "objrecv"), "kani": [], "structural": [],
+        "technique": "Verus contracts: decoder completeness conditions (No-Code, RS) and close-object flag placement on sender and receiver",
+        "claim": "No-Code decodes iff all k source symbols were seen, RS iff k distinct encoding symbols (MDS reconstruct assumed); duplicates never change "
+                 "the counters; the receiver aborts on the B flag only if the object is still incomplete after the flagged packet was processed",
+        "not_covered": ["Raptor / RaptorQ decodability", "loss of FDT packets", "the exhaustive loss-subset quantifier as a history property"],
+    },
+    "C03": {
+        "level": "proof", "verus": U("objrecv", "decoders", "blockwriter"), "kani": [], "structural": [],
+        "technique": "Verus data-structure invariants (first copy wins, in-order trimmed writes, MD5 gate before complete, one terminal state)",
+        "claim": "complete() is reachable only when every byte was written and the MD5 gate passed; symbols are placed by ESI and the first copy wins; "
+                 "an object that ended ignores further packets; a writer never sees both complete and error",
+        "not_covered": ["stale packets of another transfer under the same TOI with different content (length mismatch is only logged)", "MD5 itself", "decompression output"],
+    },
+    "C04": {
+        "level": "proof", "verus": U("getext", "objrecv", "ringbuffer", "blockwriter", "partition", "receiver"), "kani": KANI_WIRE, "structural": [],
+        "technique": "totality contracts: Kani on every datagram up to a stated length for the codecs, Verus (unbounded) for the extension walk, the receiver pipeline, ring and block arithmetic",
+        "claim": "every parser returns Ok or Err on every byte string up to the stated datagram length (no panic, no overflow); the unbounded extension walk, "
+                 "ObjectReceiver::push and everything below it, the ring buffer and partition arithmetic are panic- and overflow-free for all inputs under "
+                 "the packet shape the parsers establish; the inflate loop terminates",
+        "not_covered": ["internals of raptorq / raptor-code / reed-solomon-erasure / flate2 / quick-xml on hostile input", "FDT XML attribute values (attach_fdt, a transfer length >= 2^48 from the FDT)",
+                        "real heap growth", "wall-clock"],
+    },
+    "C06": {
+        "level": "proof", "verus": U("getext", "ntp"), "kani": KANI_WIRE, "structural": [],
+        "technique": "Kani/CBMC full-domain harnesses on the real codecs against decoders written from the RFC text; Verus for the extension walk and NTP arithmetic",
+        "claim": "LCT header push/parse equal an RFC 5651 decoder written from the RFC text for every field value (CCI 0 in the quick tier, full 128 bit in the thorough tier) "
+                 "and every datagram of 4..48 bytes; EXT_FDT/EXT_CENC layouts; six EXT_FTI and six payload-id layouts per RFC 5445/5510/6330/5053 with round trips over the full field domains; "
+                 "unknown and long extensions skipped (unbounded); NTP conversion exact in seconds and to the microsecond",
+        "not_covered": ["new_alc_pkt composition of several extensions in one packet beyond the 40-byte datagram harness"],
+    },
+    "C07": {
+        "level": "proof", "verus": U("partition", "objrecv", "blockencoder", "filedesc"), "kani": KANI_WIRE, "structural": [],
+        "technique": "Verus contracts against an RFC 5052 spec over nat (nonlinear-arithmetic lemmas); both ends proved to store that partition",
+        "claim": "block_partitioning == RFC 5052 section 9.1 for every u64 triple; block_length == per-block byte length for every L < 2^48, E <= 65535, SBN < N "
+                 "without intermediate overflow; receiver and sender store exactly that partition of (transfer length, E, B)",
+        "not_covered": [],
+    },
+    "C08": {
+        "level": "proof", "verus": U("decoders", "blockencoder"), "kani": KANI_WIRE, "structural": [],
+        "technique": "Verus contracts on Block::read / BlockEncoder::read; Kani bounded harnesses for shard slicing (iterator adapters)",
+        "claim": "symbols of a block leave in shard order, each once; the close-object flag expression; A flag only in the close-session packet; shard slicing bounded",
+        "not_covered": ["Raptor / RaptorQ shards", "the per-transfer history (every symbol of every block) as a whole"],
+    },
+    "C09": {
+        "level": "proof", "verus": U("objrecv", "blockwriter"), "kani": [], "structural": ["s_writer_calls_only_in_contracted_functions"],
+        "technique": "Verus typestate automaton on a ghost call trace of the object writer (every writer call site rewritten to a monitored wrapper with the automaton step as precondition)",
+        "claim": "every writer call in objectreceiver.rs is a step of open -> write* -> (complete|error|interrupted) -> nothing; the invariant linking the session state to the "
+                 "trace is preserved by every &mut self method of the receive pipeline; drop leaves every opened writer with its terminal call",
+        "not_covered": ["builder answers across objects", "prefix-of-content beyond byte counts for CENC != null"],
+    },
+    "C10": {
+        "level": "proof", "verus": U("fdtsched"), "kani": KANI_WIRE, "structural": [],
+        "technique": "Verus contracts on Fdt::publish / expiry thresholds; Kani layout harness for EXT_FDT",
+        "claim": "instance id arithmetic modulo 2^20, the queued instance carries the old id, republish thresholds; EXT_FDT carries id and version",
+        "not_covered": ["XML well-formedness and escaping (quick-xml/serde trusted)", "one id never denotes two contents across the wrap (history)", "groups / ETag beyond field copies"],
+    },
+    "C11": {
+        "level": "proof", "verus": U("timing", "fdtsched", "sendsched"), "kani": [], "structural": ["s_sender_read_polls_fdt_first"],
+        "technique": "Verus contracts on the three guards (eligibility, pending-FDT gate, publish-before-start)",
+        "claim": "an unpublished object is never eligible in full-FDT mode; a file session returns no packet while an FDT instance is pending; "
+                 "in being-transferred mode publish precedes the start of the transfer",
+        "not_covered": ["that an FDT listing the object was COMPLETELY emitted earlier (history over the composed sessions)"],
+    },
+    "C12": {
+        "level": "proof", "verus": U("timing", "fdtsched", "sendsched", "blockencoder"), "kani": [], "structural": [],
+        "technique": "Verus contracts on the counting automaton and removal path",
+        "claim": "transfer counters advance by exactly one per completed transfer, expiry iff the count is reached without carousel, requeue/removal rule, forced stop yields at most one packet",
+        "not_covered": ["termination of repeated reads over all sessions (variant over the whole sender)"],
+    },
+    "C13": {
+        "level": "proof", "verus": U("sendsched", "fdtsched", "blockencoder"), "kani": [], "structural": ["s_sender_read_priority_order", "s_sender_new_session_count"],
+        "technique": "Verus contracts on round-robin rotation, FIFO admission and the interleave window; structural obligations on the BTreeMap loop",
+        "claim": "round-robin index arithmetic, first eligible entry admitted, at most interleave_blocks blocks open and opened in increasing SBN",
+        "not_covered": ["strict priority across calls (global scheduling history)"],
+    },
+    "C14": {
+        "level": "proof", "verus": U("timing", "sendsched"), "kani": [], "structural": [],
+        "technique": "Verus contracts over an axiomatised std::time model (nanosecond counts)",
+        "claim": "eligibility never before the start time nor before the carousel gap; pacing clock advances by exactly one tick per packet and the i-th packet is not before start + i*tick; "
+                 "init is total over the degenerate inputs listed",
+        "not_covered": ["each due packet goes out at the first poll at or after its due time (composed scheduler)", "tick >= target/packets (float quotient only bounded from above)"],
+    },
+    "C15": {
+        "level": "proof", "verus": U("toi"), "kani": KANI_WIRE, "structural": ["s_toi_field_copies"],
+        "technique": "Verus data-structure invariant on the extracted ToiAllocatorInternal with whole-view postconditions over HashSet<u128>",
+        "claim": "every allocate/release/new preserves the allocator invariant (next TOI non-zero, within the configured width, not reserved); allocate returns a fresh value, "
+                 "release removes exactly its TOI; by induction for every history, width and initial value incl. the random one; a TOI < 2^112 is carried unchanged by the LCT header",
+        "not_covered": ["decimal TOI string in the FDT XML", "termination of the allocation loop", "Send/Sync (rustc auto traits)"],
+    },
+    "C17": {
+        "level": "proof", "verus": U("objrecv", "receiver"), "kani": [], "structural": [],
+        "technique": "Verus accounting invariants (ghost sums over the packet cache and the window of block decoders)",
+        "claim": "cache_size equals the cached bytes and the cache refuses beyond the limit; a block is allocated only within the limit or among the first two; the window of block decoders grows by a bounded amount per packet; "
+                 "counters never under-count; terminal operations release blocks and cache; the error list respects its configured length",
+        "not_covered": ["allocations inside FEC decoders and quick-xml", "fdt_current (literal bound 10)", "real heap bytes"],
+    },
+    "C18": {
+        "level": "proof", "verus": U("tsifilter", "multireceiver"), "kani": [], "structural": ["s_session_open_only_on_creation"],
+        "technique": "Verus reference-count view of the TSI filter with whole-view postconditions; ghost event trace for listeners",
+        "claim": "the filter accepts iff bypass count > 0 or the (endpoint, TSI) count, exact or source-wildcarded, > 0, for every add/remove history; routing key is (endpoint, TSI)",
+        "not_covered": ["non-interference between sessions (follows from Rust ownership of the per-key Box<Receiver>; stated, not proved)"],
+    },
+    "C19": {
+        "level": "proof", "verus": U("expiry", "receiver"), "kani": [], "structural": [],
+        "technique": "Verus contracts over the axiomatised time model; skew-invariance lemma",
+        "claim": "server time estimate == SCT + elapsed for both signs of the offset, invariant under any receiver clock skew; expiry decision and the single Complete -> Expired transition",
+        "not_covered": ["objects arriving before the FDT (history)"],
+    },
+    "C20": {
+        "level": "proof", "verus": U("blockencoder"), "kani": [], "structural": [],
+        "technique": "Verus contracts: buffer and stream sources against the same block specification under the documented Read::read contract",
+        "claim": "read_block_buffer and read_block_stream cut the same blocks whatever sizes the reads return; a transfer starts at stream position 0",
+        "not_covered": ["ObjectDataSource::len position restore", "file sources (std::fs)"],
+    },
+    "C05": {
+        "level": "other", "verus": [], "kani": KANI_WIRE, "structural": ["s_fs_sinks_flow_from_confinement"],
+        "technique": "structural data-flow obligation on the fs sinks + Kani bounded harness on the confinement function (url crate over-approximated)",
+        "claim": "every std::fs sink in objectwriterfs.rs takes a path produced by the lexical confinement function; that function, for every path string up to the stated bound, "
+                 "returns only paths below the destination directory",
+        "explanation": "bounded (Kani, stated string length) and structural (call-site scan) obligations only: url::Url::parse and std::path are outside both verifiers' unbounded reach",
+        "not_covered": ["symlinks inside the destination directory", "url::Url::parse itself (over-approximated: its path() may be any string)"],
+    },
 }
-PROPS["C04"] = {
-    "level": "proof",
-    "verus": ["getext"],
-    "kani": KANI_WIRE,
-    "structural": [],
-    "not_covered": [],
-    "design_ref": "DESIGN.md section 6, C04",
-    "technique": "totality contracts: Kani on every datagram up to a stated length, Verus for unbounded loops and arithmetic",
-    "claim": "wip",
-    "note": "wip",
-}
+
+for _p, _c in PROPS.items():
+    _c.setdefault("note", TRUST_COMMON)
+    _c.setdefault("design_ref", "DESIGN.md section 6, %s" % _p)
 
 NOT_APPLICABLE = {
     "C16": "liveness over an unbounded packet history of the composed sender and receiver (\"within two further cycles\"); "
            "no function- or structure-level contract expresses it; its safety ingredients are verified under C17 and C19",
 }
+
+
+def has_harness(pid, cfg):
+    for g in cfg.get("kani", []):
+        src = open(os.path.join(VERIF, g["src"])).read()
+        for m in re.finditer(r"@HARNESS[^\n]*props=([\w,]+)", src):
+            if pid in m.group(1).split(","):
+                return True
+    return False
+
+
+def claimed():
+    """a property is claimed only when at least one of its Verus units or Kani harnesses exists on disk"""
+    return {p: c for p, c in PROPS.items() if c.get("verus") or has_harness(p, c)}
